@@ -23,6 +23,15 @@ DEFAULT_TOK = {"shape": "bearer", "ser": "compact", "alg": "ed25519/EdDSA", "sig
 WORKERS = 8
 
 
+def constants_of(cfg):
+    out = []
+    for line in open(os.path.join(vlib.SPEC, "cfg", cfg)):
+        line = line.strip()
+        if "=" in line and not line.startswith("\\*"):
+            out.append(line.replace(" ", ""))
+    return sorted(out)
+
+
 def tkey(c):
     return (c["cfg"], c["port"], c["method"], "".join(c["target"]))
 
@@ -179,9 +188,13 @@ def run(prop, tier, seed, replay=None):
             cover[a] = cover.get(a, 0) + n
         models.append(dict(cfg=base + ".cfg", states=m.distinct, transitions=m.generated, wall_s=round(m.wall, 1)))
         presc = {json.dumps([tkey(c), c["tok"]], sort_keys=True): (c["status"], c["reached"]) for c in m.printed}
-        g = vlib.tlc("HttpGuard", base + ".gen.cfg", workers=WORKERS, timeout=900)
-        if not g.ok:
-            raise Inconclusive("TLC %s.gen: %s %s" % (base, g.violation, g.error))
+        if constants_of(base + ".gen.cfg") == constants_of(base + ".cfg"):
+            g = m     # no deviation constant is switched on: descriptive = prescriptive, one TLC run serves both
+            g.printed = [dict(c) for c in m.printed]
+        else:
+            g = vlib.tlc("HttpGuard", base + ".gen.cfg", workers=WORKERS, timeout=900)
+            if not g.ok:
+                raise Inconclusive("TLC %s.gen: %s %s" % (base, g.violation, g.error))
         g.printed.sort(key=lambda c: json.dumps(c, sort_keys=True))
         for c in g.printed:
             c["fam"] = fam
